@@ -12,6 +12,7 @@ import (
 	"os"
 	"sync"
 	"testing"
+	"time"
 
 	"github.com/buchgr/bazel-remote/v2/cache"
 	pb "github.com/buchgr/bazel-remote/v2/genproto/build/bazel/remote/execution/v2"
@@ -111,7 +112,15 @@ func TestVerifConcurrentLookups(t *testing.T) {
 				}
 			}(g)
 		}
-		wg.Wait()
+		done := make(chan struct{})
+		go func() { wg.Wait(); close(done) }()
+		select {
+		case <-done:
+		case <-time.After(120 * time.Second):
+			// a damaged list can make a lookup spin under the index lock: nothing more can be asked of this cache
+			rec.Violation("C07", "lookuprace.hang", fmt.Sprintf("mode=%s: overlapping lookups of present entries did not finish within 120 s", mode), map[string]string{"mode": mode})
+			return
+		}
 		vQuiesce(c)
 		// walk the recency list
 		c.mu.Lock()
